@@ -15,7 +15,7 @@ def swarm(rng):
     cfg.update({"p_objref": rng.choice([0.7, 0.9]), "p_mirror": rng.choice([0.0, 0.4]), "n_spaces": rng.choice([3, 4, 5]), "max_depth": rng.choice([2, 2, 3]),
                 "n_cells": rng.choice([1, 2]), "n_refs": rng.choice([1, 2]), "n_steps": rng.choice([10, 16, 24]),
                 "p_sformula": rng.choice([0.3, 0.6]), "p_bases": rng.choice([0.5, 0.8]), "p_modelref": 0.1, "recalc": False,
-                "p_check": 0.0})
+                "p_check": 0.0, "reload": rng.random() < 0.5, "reload_zip": rng.random() < 0.5})
     return cfg
 
 
@@ -166,10 +166,10 @@ class C10(PropBase):
             "is walked: targets inside the base's tree must be the corresponding dynamic object; "
             "non-trivial = a derived or dynamic binding was judged; distinct = event-log digest")
     tiers = {"quick": {"budget_s": 45, "timeout_s": 60}, "thorough": {"budget_s": 900, "timeout_s": 120}}
-    reach_probes = ["reach/static_bindings_judged", "reach/dynamic_bindings_judged"]
+    reach_probes = ["reach/static_bindings_judged", "reach/dynamic_bindings_judged", "reach/reloads"]
     assumptions = ["descendant-space targets under static derivation are generated but not judged (child spaces are not inherited)",
                    "'relative' references to targets outside the definer's tree are not generated (accepted by modelx and failing "
-                   "later: known finding)", "bindings surviving save/load are judged by C04's round trip (object references in all modes)"]
+                   "later: known finding)", "half of the runs end with a save (directory or zip) and load, after which the loaded model is judged by the same rule"]
 
     def execute(self, ctx):
         if ctx.doc is None:
@@ -180,7 +180,43 @@ class C10(PropBase):
             run.generate(WEIGHTS, cfg["n_steps"], 0.0)
         else:
             run.replay(ctx.doc["steps"])
+        if cfg.get("reload"):
+            self.reload(ctx, run)
         run.finish()
+
+    def reload(self, ctx, run):
+        """Modes and bindings survive saving and loading: the model the history left behind is written (directory or zip),
+        read back under another name, and judged by the same rule."""
+        import os
+        mach = run.mach
+        d = ctx.tmpdir("c10")
+        path = os.path.join(d, "saved")
+        live = mach.world.m
+        try:
+            if cfg_zip(ctx):
+                mx.zip_model(live, path + ".zip")
+                back = mx.read_model(path + ".zip", name="Reloaded")
+            else:
+                mx.write_model(live, path)
+                back = mx.read_model(path, name="Reloaded")
+        except Exception as e:
+            raise Violation("C10/save-or-load-raised/%s" % type(e).__name__, {"error": repr(e)[:300]})
+        mach.events.append("reload zip=%s" % cfg_zip(ctx))
+        ctx.count("reloads", 1, "reach")
+        mach.world.m = back
+        try:
+            for o in run.oracles:
+                if isinstance(o, RebindOracle):
+                    try:
+                        o.check({"op": "reload"})
+                    except Violation as v:
+                        raise Violation(v.sig + "/after-reload", v.detail)
+        finally:
+            mach.world.m = live
+
+
+def cfg_zip(ctx):
+    return bool(ctx.cfg.get("reload_zip"))
 
 
 PROP = C10()
